@@ -7,7 +7,7 @@ from dataclasses import dataclass
 from ..absint import TOP, Const, Domain, ExtRef, Interp, Tup
 from ..repo import calls_in, dotted, norm_src, walk_no_nested
 from ..match import Matcher, src as msrc
-from .common import kwarg, need_funcs
+from .common import accumulator_scope_obligations,  kwarg, need_funcs
 from .C03 import local_assignments, one_shot_clause
 
 LB = "acryo/loader/_base.py::LoaderBase."
@@ -199,6 +199,13 @@ def rng_clause(model, rep, funcs):
                 params = set(fn.param_names())
                 attrs = {x.attr for x in ast.walk(arg) if isinstance(x, ast.Attribute)} if arg is not None else set()
                 ok = (bool(names & params) and bool(names & {"seed", "i", "random_state", "rng"})) or any("seed" in x for x in attrs) if arg is not None else False
+                # the seed reaches the generator unchanged: `seed or None`, `seed and ...`, arithmetic on the seed or a conditional would map distinct
+                # seeds (0 in particular) to the same or to no seed
+                direct = arg is not None and (isinstance(arg, ast.Name) or (isinstance(arg, ast.Attribute) and isinstance(arg.value, ast.Name)))
+                if ok and not direct:
+                    rep.ob("S12", fn.anchor, "the seed argument reaches the generator unchanged (seed 0 is a seed like any other)", False,
+                           f"default_rng({norm_src(arg)}): the seed is transformed before use; `seed or None` turns seed 0 into an unseeded generator", node=c, fn=fn,
+                           clause="3 reproducibility", stmt="seed passed unchanged: " + norm_src(c)[:60])
                 rep.ob("S12", fn.anchor, "the generator is seeded from the caller's seed argument", ok,
                        f"default_rng({norm_src(arg) if arg is not None else ''}); parameters {sorted(params)}", node=c, fn=fn, clause="3 reproducibility")
     rep.floor("S12", 3, "(default_rng sites)")
@@ -222,3 +229,12 @@ def check(model, rep, tier):
     halves_clause(model, rep, funcs)
     rng_clause(model, rep, funcs)
     one_shot_clause(model, rep, funcs)
+    nacc = 0
+    for a in (LG + "average_split", LG + "average", LG + "align", LG + "align_multi_templates", LG + "fsc"):
+        try:
+            f = funcs.get(a) or model.func(a)
+        except Exception:
+            continue
+        nacc += accumulator_scope_obligations(model, rep, f, "1 reducers")
+    rep.floor("S25", 1, "(LoaderGroup.average_split collects one task list per group)")
+
